@@ -21,6 +21,8 @@ pub enum Login {
     UnknownDb,
     UserToken,
     UserWrongToken,
+    /// a user that does not exist, with the text the server prints for an absent value as its token
+    GhostUser { name: String },
 }
 
 #[derive(Clone, Debug, Serialize, Deserialize, PartialEq)]
@@ -82,6 +84,9 @@ pub enum Step {
 pub struct Program {
     pub steps: Vec<Step>,
     pub initial_permissions: Option<String>,
+    /// cluster scenario: the session under test connects to the secondary instead of the primary
+    #[serde(default)]
+    pub session_on_secondary: bool,
 }
 
 const KEYS: [&str; 5] = ["ka", "kb", "xa", "zz", "$$sec"];
@@ -98,7 +103,13 @@ fn gen(rng: &mut Rng) -> Program {
             5 => Login::WrongToken,
             6 => Login::UnknownDb,
             7 | 8 => Login::UserToken,
-            _ => Login::UserWrongToken,
+            _ => {
+                if rng.chance(1, 2) {
+                    Login::UserWrongToken
+                } else {
+                    Login::GhostUser { name: ["all", "ghost"][rng.below(2) as usize].to_string() }
+                }
+            }
         }));
     }
     for _ in 0..n {
@@ -110,14 +121,21 @@ fn gen(rng: &mut Rng) -> Program {
                 3 => Login::WrongToken,
                 4 => Login::UnknownDb,
                 5 => Login::UserToken,
-                _ => Login::UserWrongToken,
+                _ => {
+                    if rng.chance(1, 2) {
+                        Login::UserWrongToken
+                    } else {
+                        Login::GhostUser { name: ["all", "ghost"][rng.below(2) as usize].to_string() }
+                    }
+                }
             }),
             1 => Step::Permissions(if rng.chance(1, 5) { None } else { Some(PERMS[rng.below(PERMS.len() as u64) as usize].to_string()) }),
             _ => Step::Command { cmd: ALL_CMDS[rng.below(ALL_CMDS.len() as u64) as usize].clone(), key: KEYS[rng.below(KEYS.len() as u64) as usize].to_string() },
         });
     }
     let initial_permissions = if rng.chance(1, 4) { None } else { Some(PERMS[rng.below(PERMS.len() as u64) as usize].to_string()) };
-    Program { steps, initial_permissions }
+    let session_on_secondary = rng.chance(1, 2);
+    Program { steps, initial_permissions, session_on_secondary }
 }
 
 fn line(cmd: &Cmd, key: &str, uniq: u32) -> String {
@@ -296,8 +314,17 @@ fn execute(prog: Program, cluster: bool) -> Outcome {
         return out;
     }
     out.setup = Ok(());
-    // the session under test
-    let mut s = Session::new(&dbs);
+    // the session under test (on the primary, or on the secondary of the cluster scenario)
+    let on_secondary = cluster && prog.session_on_secondary && dbs_secondary.is_some();
+    let (own, other) = if on_secondary { (dbs_secondary.clone().unwrap(), Some(dbs.clone())) } else { (dbs.clone(), dbs_secondary.clone()) };
+    let site = if !cluster {
+        ""
+    } else if on_secondary {
+        ":session@secondary"
+    } else {
+        ":session@primary"
+    };
+    let mut s = Session::new(&own);
     let mut is_admin = false;
     // Some(None) = database token session, Some(Some(user)) = user token session
     let mut selected: Option<Option<String>> = None;
@@ -315,6 +342,7 @@ fn execute(prog: Program, cluster: bool) -> Outcome {
                     Login::UnknownDb => ("use-db nosuch tok".to_string(), false),
                     Login::UserToken => ("use-db d u1 pw1".to_string(), true),
                     Login::UserWrongToken => ("use-db d u1 nope".to_string(), false),
+                    Login::GhostUser { name } => (format!("use-db d {} <Empty>", name), false),
                 };
                 s.exec(&cmdline);
                 match l {
@@ -323,7 +351,7 @@ fn execute(prog: Program, cluster: bool) -> Outcome {
                     Login::UserToken => selected = Some(Some("u1".into())),
                     _ => {}
                 }
-                if !ok && matches!(l, Login::WrongToken | Login::UnknownDb | Login::UserWrongToken) {
+                if !ok && matches!(l, Login::WrongToken | Login::UnknownDb | Login::UserWrongToken | Login::GhostUser { .. }) {
                     // a failed use-db leaves the previous selection untouched
                     if s.client.selected_db_name() != before_sel || s.client.selected_db_user_name() != before_user {
                         out.violations.push(Violation::new(
@@ -427,21 +455,21 @@ fn execute(prog: Program, cluster: bool) -> Outcome {
                         perms = Some("rwix *".to_string());
                     }
                 } else {
-                    let before = full_state(&w, &dbs);
-                    let before_secondary = dbs_secondary.as_ref().map(|d| full_state(&w, d).dump);
+                    let before = full_state(&w, &own);
+                    let before_other = other.as_ref().map(|d| full_state(&w, d).dump);
                     let r = s.exec(&l);
                     sleep_ms(5);
                     if cluster {
                         w.settle(100, 2_000);
                     }
-                    let after = full_state(&w, &dbs);
-                    let after_secondary = dbs_secondary.as_ref().map(|d| full_state(&w, d).dump);
+                    let after = full_state(&w, &own);
+                    let after_other = other.as_ref().map(|d| full_state(&w, d).dump);
                     out.denied_checked += 1;
-                    if before_secondary != after_secondary {
+                    if before_other != after_other {
                         out.violations.push(Violation::new(
                             "denied-but-replicated",
-                            format!("{:?}:{}", cmd, cred),
-                            format!("step #{} `{}` with credential {} (permissions {:?}) must be refused (reply {:?}) but the secondary's data changed", i, l, cred, perms, r.resp),
+                            format!("{:?}:{}{}", cmd, cred, site),
+                            format!("step #{} `{}` with credential {} (permissions {:?}) must be refused (reply {:?}) but the data of the other node ({}) changed", i, l, cred, perms, r.resp, if on_secondary { "the primary" } else { "the secondary" }),
                         ));
                     }
                     if before != after {
@@ -494,7 +522,7 @@ impl Property for C09 {
         (200_000, 4_000_000)
     }
     fn rule(&self) -> &'static str {
-        "one session performs 1-6 steps of {login: administrator ok / wrong password, database token, wrong token, unknown database, user token ok / wrong; the administrator (another session) replaces or removes the user's permission list mid-session; one of 35 commands (every command word of the parser) on one of 5 keys incl. a $$ key}, permission lists from 9 lists over {r,w,i,x} with prefix*, *suffix and contains patterns. Access-control reference model: administrative and cluster commands need the administrator login; data commands need a selected database and, for user-token sessions, a permission entry of the right kind whose pattern matches the key; $$ keys need the administrator. Denied => the full white-box state (all databases, role, member table, snapshot queue, pending operations) is unchanged and the session receives no data line; allowed => no permission/credential error. Disruptive cluster commands are only tested for refusal. Scenario matrix-with-secondary runs the same walk on the primary of a 2-node cluster: a refused command must leave the secondary's data unchanged as well. Non-trivial: at least one denied command was checked. distinct = distinct programs."
+        "one session performs 1-6 steps of {login: administrator ok / wrong password, database token, wrong token, unknown database, user token ok / wrong; the administrator (another session) replaces or removes the user's permission list mid-session; one of 35 commands (every command word of the parser) on one of 5 keys incl. a $$ key}, permission lists from 9 lists over {r,w,i,x} with prefix*, *suffix and contains patterns. Access-control reference model: administrative and cluster commands need the administrator login; data commands need a selected database and, for user-token sessions, a permission entry of the right kind whose pattern matches the key; $$ keys need the administrator. Denied => the full white-box state (all databases, role, member table, snapshot queue, pending operations) is unchanged and the session receives no data line; allowed => no permission/credential error. Disruptive cluster commands are only tested for refusal. Scenario matrix-with-secondary runs the same walk on the primary or on the secondary of a 2-node cluster: a refused command must leave the data of the other node unchanged as well. Non-trivial: at least one denied command was checked. distinct = distinct programs."
     }
     fn assumptions(&self) -> Vec<String> {
         vec![
